@@ -397,8 +397,9 @@ func (x *arun) run(r *h.Run, e *appEnv, mon *dl.Monitor) {
 	var tEOF int64
 	var eofErr error
 	sent := 0
+	unanswered := false
 	request := func(line string) (*http.Response, bool) {
-		_ = c.SetDeadline(time.Now().Add(20 * time.Second))
+		_ = c.SetDeadline(time.Now().Add(3 * time.Second))
 		if _, err := c.Write([]byte(line)); err != nil {
 			tEOF, eofErr = dl.Now(), err
 			return nil, false
@@ -406,7 +407,11 @@ func (x *arun) run(r *h.Run, e *appEnv, mon *dl.Monitor) {
 		resp, err := http.ReadResponse(br, nil)
 		if err != nil {
 			if isTimeout(err) {
-				x.incon = "no response within 20 s"
+				// neither an answer nor a close: the silent phase below decides
+				// whether the server abandoned the connection without closing it
+				unanswered = true
+				x.logf("client: no response within 3 s")
+				x.shape = append(x.shape, "(unanswered)")
 				return nil, false
 			}
 			tEOF, eofErr = dl.Now(), err
@@ -531,6 +536,10 @@ func (x *arun) run(r *h.Run, e *appEnv, mon *dl.Monitor) {
 		if v.Racy {
 			r.Count("app_closes_governed_by_a_race_window", 1)
 		}
+		if unanswered {
+			x.incon = "a request stayed unanswered for 3 s although the connection was closed only later"
+			return
+		}
 		if tEOF <= ub+int64(l)+slack {
 			x.outcome = "closed-on-time"
 			x.decided = sent == x.hs.N || x.hs.Edge
@@ -582,7 +591,10 @@ func (x *arun) run(r *h.Run, e *appEnv, mon *dl.Monitor) {
 	x.mu.Unlock()
 	// is the server's descriptor really still open?
 	open := "unknown"
-	if x.srv != nil {
+	if nc, isNb := x.srv.(*nbio.Conn); isNb {
+		cl, _ := nc.IsClosed()
+		open = fmt.Sprintf("IsClosed=%v", cl)
+	} else if x.srv != nil {
 		if err := x.srv.SetWriteDeadline(time.Time{}); err == nil {
 			open = "yes (SetWriteDeadline on the server connection still succeeds)"
 		} else {
